@@ -777,6 +777,46 @@ def check_scratch(prog, rep):
     rep.floor("R10-scratch", 1)
 
 
+def check_positional(prog, rep, rule="R5-factories", modules=None):
+    """a positional argument that is a bare name equal to a DIFFERENT parameter name of the (resolved) callee is an argument swap:
+    for every call cls._calc_*/self._calc_*/cls.from_* with positional arguments in the problem factories"""
+    n = 0
+    for m in prog.modules.values():
+        if not (m.name.startswith(PROB) or m.name.startswith(DATA_MODULES)):
+            continue
+        if modules is not None and not any(x in m.name for x in modules):
+            continue
+        for c in m.classes.values():
+            if prog.mro(c) is None:
+                continue
+            for f in c.methods.values():
+                for call in walk_no_nested(f.node):
+                    if not (isinstance(call, ast.Call) and isinstance(call.func, ast.Attribute) and dump(call.func.value) in ("cls", "self") and call.args):
+                        continue
+                    callee = prog.lookup_method(c, call.func.attr)
+                    if callee is None:
+                        continue
+                    pn = callee.params()
+                    if callee.kind in ("method", "classmethod") and pn and pn[0] in ("self", "cls"):
+                        pn = pn[1:]
+                    if any(isinstance(a, ast.Starred) for a in call.args):
+                        continue
+                    n += 1
+                    rep.saw(f)
+                    construct = "%s -> %s" % (f.qualname, call.func.attr)
+                    bad = []
+                    for i, a in enumerate(call.args):
+                        if i < len(pn) and isinstance(a, ast.Name) and a.id in pn and a.id != pn[i]:
+                            bad.append((i, a.id, pn[i]))
+                    if bad:
+                        i, got, want = bad[0]
+                        rep.violate(rule, construct, "positional argument %d is `%s` but the callee's parameter there is `%s` (and `%s` is another parameter of the callee): "
+                                    "arguments are exchanged" % (i + 1, got, want, got), where(f, call), want, got)
+                    else:
+                        rep.ok(rule, construct, "%d positional arguments in the callee's parameter order" % len(call.args))
+    return n
+
+
 def check_derived(prog, rep):
     """R8: a cached field computed by a `_calc_<name>` helper is computed by the helper of its own name (sibling helpers exist for each field)"""
     n = 0
@@ -831,6 +871,7 @@ def run(prog, rep, tier):
     check_wiring(prog, rep)
     check_factor(prog, rep)
     check_factories(prog, rep)
+    check_positional(prog, rep)
     check_chunks(prog, rep)
     check_loopdata(prog, rep)
     check_derived(prog, rep)
